@@ -5,8 +5,7 @@ open DendroModel DendroModel.C09
 def dec (s : String) : Option Str :=
   match decodeStr s with
   | some (some x) => some x.toList
-  | some none => some []
-  | none => none
+  | _ => none
 
 def enc (s : Str) : String := encodeStr (some (String.ofList s))
 
@@ -43,6 +42,7 @@ def showRows (rows : List (Str × Str)) : String :=
 def showMatrix (m : Matrix) : String := showRows (m.map (fun r => (r.1, renderCells r.2)))
 
 def flag (s : String) : Bool := s == "1"
+def isFlag (s : String) : Bool := s == "1" || s == "0"
 
 def handle (ws : List String) : String :=
   match ws with
@@ -53,6 +53,7 @@ def handle (ws : List String) : String :=
       | none => "KeyError"
     | _, _ => "bad-op"
   | ["match", dt, k, h] =>
+    if !(k == "p" || k == "a") then "bad-op" else
     match alphabetOf dt, dec h with
     | some (_, sp), some ms => match resolveMulti (mkStates sp) (k == "p") ms with
       | some c => enc (renderCell c)
@@ -63,6 +64,7 @@ def handle (ws : List String) : String :=
     | some (n, sp) => enc (formatOf (if dt.startsWith "std:" then "standard".toList else n) sp)
     | none => "bad-op"
   | "nxwrite" :: dt :: simple :: rows =>
+    if !isFlag simple then "bad-op" else
     match alphabetOf dt, rows.mapM (fun w => (parsePair w).bind (fun p => (parseCells p.2).map (fun c => (p.1, c)))) with
     | some (n, sp), some m =>
       let nm := if dt.startsWith "std:" then "standard".toList else n
@@ -86,10 +88,12 @@ def handle (ws : List String) : String :=
       | _, _ => "bad-op"
     | _, _, _, _ => "bad-op"
   | "phwrite" :: strict :: su :: rows =>
+    if !(isFlag strict && isFlag su) then "bad-op" else
     match parseRowsText rows with
     | some rows => " ".intercalate ((phWrite (flag strict) (flag su) rows).map enc)
     | none => "bad-op"
   | "phread" :: dt :: strict :: inter :: multi :: us :: lines =>
+    if !(isFlag strict && isFlag inter && isFlag multi && isFlag us) then "bad-op" else
     match alphabetOf dt, lines.mapM dec with
     | some (_, sp), some lines =>
       match phRead ⟨mkStates sp, flag strict, flag inter, flag multi, flag us⟩ lines with
@@ -118,10 +122,12 @@ def handle (ws : List String) : String :=
     match parseIds chars, rows.mapM parseRow with
     | some chars, some rows =>
       " ".intercalate (rows.map (fun r =>
-        let v := nexmlReadRow chars r
-        if v.isEmpty then "-" else ",".intercalate (v.map (fun x => match x with
-          | some n => toString n
-          | none => "_"))))
+        match nexmlReadRow chars r with
+        | none => "err"
+        | some v =>
+          if v.isEmpty then "-" else ",".intercalate (v.map (fun x => match x with
+            | some n => toString n
+            | none => "_"))))
     | _, _ => "bad-op"
   | ["nexmlwrite", lens] =>
     match (if lens == "-" then some [] else (lens.splitOn ",").mapM String.toNat?) with
